@@ -8,7 +8,7 @@ def part(name, pkg, test, **kw):
 
 PROPS = {
     "C01": {"level": "exploration", "parts": [part("dump", "stack", "TestVerifC01")]},
-    "C02": {"level": "model_checking", "parts": [part("bfs", "stack", "TestVerifC02")]},
+    "C02": {"level": "model_checking", "parts": [part("bfs", "stack", "TestVerifC02"), part("streams", "stack", "TestVerifC02")]},
     "C03": {"level": "exploration", "parts": [part("bfs", "stack", "TestVerifC03"), part("edits", "stack", "TestVerifC03")]},
     "C04": {"level": "exploration", "parts": [part("agg", "stack", "TestVerifC04")]},
     "C05": {"level": "exploration", "parts": [part("agg", "stack", "TestVerifC05")]},
@@ -16,7 +16,7 @@ PROPS = {
     "C06": {"level": "exploration", "parts": [
         part("mapchoice", "stack", "TestVerifC06", variant="mapchoice"),
         part("plain", "stack", "TestVerifC06")]},
-    "C07": {"level": "model_checking", "parts": [part("bfs", "stack", "TestVerifC07")]},
+    "C07": {"level": "model_checking", "parts": [part("bfs", "stack", "TestVerifC07"), part("streams", "stack", "TestVerifC07")]},
     "C08": {"level": "exploration", "parts": [part("race", "stack", "TestVerifC08")]},
     "C09": {"level": "model_checking", "parts": [
         part("a4", "stack", "TestVerifC09", variant="smallbuf-4"),
